@@ -408,6 +408,102 @@ func genG12(repo string, w *Out) error {
 			return err
 		}
 	}
+	// ------------------------------------------------------------ proxy_handler.go (the http.Handler variant of the exchange)
+	ph := "internal/martian/proxy_handler.go"
+	for _, fn := range []string{"handleRequest", "handleConnectRequest", "tunnel", "handleUpgradeResponse", "writeErrorResponse"} {
+		sn, err := skelNorm(ph, "proxyHandler."+fn)
+		if err != nil {
+			return err
+		}
+		var rel []string
+		for _, t := range sn {
+			for _, k := range append([]string{"panic(", "Hijack"}, relevant...) {
+				if strings.Contains(t, k) {
+					rel = append(rel, t)
+					break
+				}
+			}
+		}
+		w.Linef("(* %s : proxyHandler.%s (tokens about modifying, upstream contact, writing, tracing, returning) *)", ph, fn)
+		w.DefStrList("skel_h_"+fn, g12Renumber(rel))
+	}
+	{
+		sn, err := skelNorm(ph, "proxyHandler.writeResponse")
+		if err != nil {
+			return err
+		}
+		var rel []string
+		for _, t := range sn {
+			for _, k := range []string{"traceWroteResponse", "return", "panic(", "!= nil", "defer "} {
+				if strings.Contains(t, k) {
+					rel = append(rel, t)
+					break
+				}
+			}
+		}
+		w.Linef("(* %s : proxyHandler.writeResponse (tokens about tracing, aborting, returning) *)", ph)
+		w.DefStrList("skel_h_writeResponse", g12Renumber(rel))
+	}
+
+	// ------------------------------------------------------------ dialvia/http.go: CONNECT through an upstream proxy
+	if _, err := emit("skel_DialContextR", "dialvia/http.go", "HTTPProxyDialer.DialContextR"); err != nil {
+		return err
+	}
+	dcr, _, _ := skel("dialvia/http.go", "HTTPProxyDialer.DialContextR")
+	{
+		// once the connection to the upstream proxy exists, every error return closes it first (no deferred close,
+		// whose test of a named error could be defeated by a shadowing declaration)
+		dialled, ok, n := false, true, 0
+		for i, t := range dcr {
+			if strings.HasPrefix(t, "call d.dial(") {
+				dialled = true
+				continue
+			}
+			if dialled && strings.HasPrefix(t, "return nil, nil, ") {
+				n++
+				if n == 1 {
+					continue // the return for a failed dial: there is no connection
+				}
+				// look back over the calls of this block (the operands of the return are calls too)
+				closed := false
+				for j := i - 1; j >= 0 && strings.HasPrefix(dcr[j], "call "); j-- {
+					if dcr[j] == "call conn.Close()" {
+						closed = true
+					}
+				}
+				if !closed {
+					ok = false
+				}
+			}
+		}
+		w.DefBool("dialvia_closes_before_every_error_return", dialled && ok && n >= 2 && !g12HasPrefix(dcr, "defer func"))
+	}
+
+	// ------------------------------------------------------------ net.go: the dialer's retry loop
+	if _, err := emit("skel_Dialer_dialContext", "net.go", "Dialer.dialContext"); err != nil {
+		return err
+	}
+	dc, _, _ := skel("net.go", "Dialer.dialContext")
+	{
+		// a failed attempt is recorded (lastErr = err) before anything can leave the loop, and the function ends
+		// with `return nil, lastErr`: it never returns (nil, nil) after at least one attempt
+		inLoop, failed, ok, rec := false, false, true, false
+		for _, t := range dc {
+			switch {
+			case strings.HasPrefix(t, "for "):
+				inLoop = true
+			case inLoop && strings.HasPrefix(t, "return conn, nil"):
+				failed = true // what follows the success return of an attempt is the failure path
+			case inLoop && failed && t == "set lastErr = err":
+				rec = true
+			case inLoop && failed && !rec && (t == "break" || t == "continue" || t == "goto" || strings.HasPrefix(t, "return")):
+				ok = false
+			}
+		}
+		w.DefBool("dial_records_error_before_leaving_loop", ok && rec && len(dc) > 0 && dc[len(dc)-1] == "return nil, lastErr")
+		w.DefBool("dial_attempts_at_least_one", g12Has(dc, "if attempts <= 0") && g12Has(dc, "set attempts = 1"))
+	}
+
 	// maxConsecutiveErrors
 	pf2, err := Parse(repo, "internal/martian/proxy.go")
 	if err != nil {
